@@ -58,7 +58,19 @@ def seeds():
         ks = "; ".join("`%s`" % k for k in keys[:3]) + (" (+%d)" % (len(keys) - 3) if len(keys) > 3 else "")
         out.append("| %s | %s | %s | %s | %s |" % (pid, ch[:330] + ("…" if len(ch) > 330 else ""), nd[:220] + ("…" if len(nd) > 220 else ""),
                                                   ks or "**not caught**", (m.get("note") or "caught by the rules as first written").replace('|', '\\|')))
-    return "\n".join(out)
+    metas = [json.load(open(d + '/meta.json')) for d in sorted(glob.glob('/verif/seeded/C*')) if os.path.exists(d + '/meta.json')]
+    total = len(metas)
+    missed_first = sum(1 for m in metas if "first missed" in (m.get("note") or ""))
+    refined = sum(1 for m in metas if (m.get("note") or "") and "first missed" not in (m.get("note") or "") and "as first written" not in (m.get("note") or ""))
+    caught_now = sum(1 for m in metas if m.get("caught"))
+    head = ("%d seeded changes (%d properties, %d of them a second, independent change for the same property): all %d are reported by the "
+            "quick check of their property today. %d were reported by the rules as first written, %d needed a refinement of an "
+            "existing rule, and %d were first missed — each of those showed a clause that is decidable from the shape of the code and "
+            "had not been implemented; the rule was added (last column), run on the unchanged tree (silent, or a genuine finding "
+            "that was then repaired — §14) and the seed re-run." %
+            (total, len(set(m["property"] for m in metas)), total - len(set(m["property"] for m in metas)), caught_now,
+             total - missed_first - refined, refined, missed_first))
+    return head + "\n\n" + "\n".join(out)
 
 
 def rules():
